@@ -961,7 +961,7 @@ fn kind_variants(n: usize, e: &[(usize, usize)], max_all: usize) -> Vec<Spec> {
     };
     masks
         .into_iter()
-        .map(|mask| Spec { n, edges: e.iter().enumerate().map(|(k, &(a, b))| (a, b, mask >> k & 1 == 1)).collect(), decl: vec![], redeclare: 0 })
+        .map(|mask| Spec { n, edges: e.iter().enumerate().map(|(k, &(a, b))| (a, b, mask >> k & 1 == 1)).collect(), decl: vec![], redeclare: 0, prov: 0 })
         .collect()
 }
 
@@ -1169,10 +1169,12 @@ pub fn size_threshold_specs(tier: &str) -> Vec<(String, Spec)> {
     for &k in ks {
         let mut shapes: Vec<(String, usize, Vec<(usize, usize)>)> = vec![(format!("antichain({k})"), k, vec![])];
         shapes.push((format!("descending_chain_plus_isolated({k})"), k, (0..(k / 2).saturating_sub(1)).map(|i| (i + 1, i)).collect()));
-        for (fam, name) in [(Family::FanOut, "fan_out"), (Family::FanIn, "fan_in"), (Family::StarRev, "star_centre_last")] {
+        for (fam, name) in [(Family::FanOut, "fan_out"), (Family::FanIn, "fan_in"), (Family::StarRev, "star_centre_last"), (Family::Chain, "chain")] {
             let (n, e) = family(fam, k);
             shapes.push((format!("{name}({k})"), n, e));
         }
+        // ranks up to k - 1 with insertion order opposite to rank order
+        shapes.push((format!("descending_chain({k})"), k, (0..k - 1).map(|i| (i + 1, i)).collect()));
         let (n, e) = family(Family::Layered(2), k / 2 + 1);
         shapes.push((format!("layered2({})", k / 2 + 1), n, e));
         for (name, n, e) in shapes {
@@ -1241,6 +1243,13 @@ pub fn run_declared_families(tier: &str, deadline: Instant, f: &(dyn Fn(&Spec, &
     specs.extend(many_type_specs());
     specs.extend(sparse_conflict_specs());
     specs.extend(size_threshold_specs(tier));
+    // graph values of unusual provenance (Spec::prov): clone, other thread, deref_mut, new(), default()
+    for mut s in crate::props_run::provenance_specs(4) {
+        for p in [0usize, 2] {
+            s.decl = (0..s.n).map(|i| decl_pattern(p, i)).collect();
+            specs.push((format!("provenance {} pattern {p}", s.prov), s.clone()));
+        }
+    }
     let arith_ns: Vec<usize> = if tier == "thorough" { vec![7, 8, 9, 10, 11, 12, 14, 16, 20, 24, 32, 40, 48] } else { vec![8, 10, 12, 16, 24, 40] };
     specs.extend(arithmetic_specs(&arith_ns, true));
     let t0 = Instant::now();
@@ -1265,7 +1274,7 @@ pub fn run_declared_families(tier: &str, deadline: Instant, f: &(dyn Fn(&Spec, &
     );
     st.capped |= capped;
     let label = format!(
-        "enumerated families: {n_decl} declared shapes (antichain, zigzag, descending chain, stars, fans, trees, layered; 6 access patterns; k in {ks:?}); 31..130 data types in 3 patterns; two writers 1..300 unrelated functions apart; declared antichain/chain/fans/star/layered shapes of 256, 257, 300 functions (255..513 thorough); arithmetic irregular DAGs n in {arith_ns:?} x (m,a,t) grid x 3 labellings x 3 access patterns"
+        "enumerated families: {n_decl} declared shapes (antichain, zigzag, descending chain, stars, fans, trees, layered; 6 access patterns; k in {ks:?}); 31..130 data types in 3 patterns; two writers 1..300 unrelated functions apart; all shapes on <= 4 functions as clones / built on another thread / after deref_mut() / FnGraph::new() / default(); declared antichain/chains/fans/star/layered shapes of 256, 257, 300 functions (255..513 thorough); arithmetic irregular DAGs n in {arith_ns:?} x (m,a,t) grid x 3 labellings x 3 access patterns"
     );
     log.push(json!({"space": label, "inputs": st.execs, "completed": !st.capped, "wall_s": t0.elapsed().as_secs_f64()}));
     eprintln!("  [enumerated families, {} inputs] viol={} {}{:.1}s", specs.len(), st.viol_total, if st.capped { "CAPPED " } else { "" }, t0.elapsed().as_secs_f64());
@@ -1372,7 +1381,7 @@ fn c16_eval(n: usize, calls: &[Call], batch: usize, st: &mut Stats) {
 /// function before it), the rest after the last call - edge calls and `add_fn` interleave.
 fn c16_eval_mode(n: usize, calls: &[Call], batch: usize, lazy: bool, st: &mut Stats) {
     // batch = 0: single calls; batch = N: calls grouped into add_*_edges::<N> where the kinds agree
-    let spec = Spec { n, edges: calls.iter().map(|c| (c.from, c.to, c.contains)).collect(), decl: vec![], redeclare: 0 };
+    let spec = Spec { n, edges: calls.iter().map(|c| (c.from, c.to, c.contains)).collect(), decl: vec![], redeclare: 0, prov: 0 };
     let what = if lazy {
         "call_sequence_lazy".to_string()
     } else if batch == 0 {
@@ -1661,12 +1670,12 @@ pub fn run_c16_probe(n: usize, depth: usize, deadline: Instant, total: &mut Stat
                     match got {
                         Ok((last, all_ok)) => {
                             if last != want || !all_ok {
-                                let spec = Spec { n: cx.n, edges: seq.iter().map(|&(x, y)| (x, y, false)).collect(), decl: vec![], redeclare: 0 };
+                                let spec = Spec { n: cx.n, edges: seq.iter().map(|&(x, y)| (x, y, false)).collect(), decl: vec![], redeclare: 0, prov: 0 };
                                 bviol(local, 16, &spec, "call_sequence", format!("after {} accepted edges the call {a}->{b} returned {}, reference {} (earlier calls all accepted: {all_ok})", seq.len() - 1, if last { "Ok" } else { "WouldCycle" }, if want { "Ok" } else { "WouldCycle" }));
                             }
                         }
                         Err(m) => {
-                            let spec = Spec { n: cx.n, edges: seq.iter().map(|&(x, y)| (x, y, false)).collect(), decl: vec![], redeclare: 0 };
+                            let spec = Spec { n: cx.n, edges: seq.iter().map(|&(x, y)| (x, y, false)).collect(), decl: vec![], redeclare: 0, prov: 0 };
                             bviol(local, 16, &spec, "call_sequence", format!("builder panicked: {m}"));
                         }
                     }
